@@ -23,6 +23,7 @@ func c13Scenario(clients []gridClient) *explore.Scenario {
 			legacy := x.Choose("srv.legacy", 2) == 1 // negotiate from legacy_version only
 			canary := x.Choose("srv.canary", 4)      // 0 honest, 1 stripped, 2 / 3 forged: RFC 8446 sentinel DOWNGRD\x01 / DOWNGRD\x00
 			cliCfg := x.Choose("cli.versions", 3)    // 0 untouched Config, 1 Config.MinVersion = TLS 1.0, 2 Config.MaxVersion = TLS 1.2
+			resumed := x.Choose("resumed", 2) == 1   // the judged connection resumes a session cached by an honest first one
 			h0, err := g.probeHello()
 			if err != nil {
 				r.Obs = "no-hello"
@@ -101,6 +102,25 @@ func c13Scenario(clients []gridClient) *explore.Scenario {
 			case 2:
 				ccfg.MaxVersion = tls.VersionTLS12
 			}
+			if resumed {
+				// first connection: same server behaviour, but the canary as the server sets it
+				cache := tls.NewLRUClientSessionCache(4)
+				ccfg.ClientSessionCache = cache
+				ccfg.OmitEmptyPsk = true
+				hk0 := &connHooks{Versions: hk.Versions}
+				var cl0 func()
+				c0 := *ccfg
+				w := peer.Run(&c0, g.ID, scfg, peer.Opts{Prepare: g.prepare(), Echo: true,
+					OnConns: func(u *tls.UConn, s *tls.Conn) { cl0 = installHooks(s, hk0) }})
+				if cl0 != nil {
+					cl0()
+				}
+				if !w.OK() {
+					r.Obs = "first-connection-failed"
+					return
+				}
+				what += " resumed"
+			}
 			hs := peer.Run(ccfg, g.ID, scfg, peer.Opts{Prepare: g.prepare(), Echo: true,
 				OnConns: func(u *tls.UConn, s *tls.Conn) { cleanup = installHooks(s, hk) }})
 			if cleanup != nil {
@@ -156,7 +176,7 @@ func c13Scenarios(thorough bool) []*explore.Scenario {
 func init() {
 	register(&Prop{ID: "C13", Level: "exploration", Variant: "A", Scenarios: c13Scenarios,
 		Run: func(c *explore.Check, thorough bool) {
-			c.Rule = "every discovered ID, randomized seeds, custom specs (+ fingerprinted copies in thorough) x server MaxVersion {1.3,1.2,1.1,1.0} x {honours supported_versions, negotiates from legacy_version only (verif hook)} x downgrade canary {as the server sets it, stripped, each of the two RFC 8446 sentinels DOWNGRD\\x01 / DOWNGRD\\x00 forced}: a completed handshake must be at a version in the advertised set parsed from the wire (supported_versions if present, else [spec minimum .. legacy_version]); with TLS 1.3 advertised a <=1.2 ServerHello carrying either sentinel must be refused (RFC 8446 4.1.3: a TLS 1.3 client checks both values). distinct = (client, server behaviour)"
+			c.Rule = "every discovered ID, randomized seeds, custom specs (+ fingerprinted copies in thorough) x server MaxVersion {1.3,1.2,1.1,1.0} x {honours supported_versions, negotiates from legacy_version only (verif hook)} x {fresh connection, resumption of a session cached by an honest first connection} x downgrade canary {as the server sets it, stripped, each of the two RFC 8446 sentinels DOWNGRD\\x01 / DOWNGRD\\x00 forced}: a completed handshake must be at a version in the advertised set parsed from the wire (supported_versions if present, else [spec minimum .. legacy_version]); with TLS 1.3 advertised a <=1.2 ServerHello carrying either sentinel must be refused (RFC 8446 4.1.3: a TLS 1.3 client checks both values). distinct = (client, server behaviour)"
 			c.Assumptions = []string{"the server is the utls Server with hooks H3/H4; canary edits go through the ServerHello random hook, so the server stays self-consistent"}
 			runAll(c, c13Scenarios(thorough), 0)
 			c.Gate(c.Total.Counters["completed"] > 200, "non-vacuity: %d completed handshakes", c.Total.Counters["completed"])
